@@ -292,6 +292,8 @@ val stable_entry :
 
 val stable : flags -> tables -> summary -> ty list -> imode -> bool
 
+val first_pass : flags -> imode -> tables -> summary -> ty list -> ty list
+
 type infer_result =
 | Inferred of ty list
 | NoFixpoint
